@@ -12,6 +12,7 @@ import (
 	"runtime"
 	"sort"
 	"strings"
+	"sync"
 	"time"
 
 	ristretto "github.com/dgraph-io/ristretto/v2"
@@ -61,6 +62,7 @@ type gModel struct {
 	ignoreInternal bool
 	costFn         bool
 	metricsOn      bool
+	suParity       bool // Config.ShouldUpdate refuses values with an odd sequence number (only asked for stored keys)
 	closed         bool
 	m              gMetrics
 	getsTotal      int64
@@ -199,7 +201,7 @@ func newGRun(c *Ctx, prop string, cs *gCase) (*gRun, error) {
 		B = 32 * 1024
 	}
 	x.m = &gModel{B: B, store: map[int]gEntry{}, policy: map[int]int64{}, maxCost: cs.Cfg.MaxCost,
-		ignoreInternal: cs.Cfg.IgnoreInternalCost, costFn: cs.Cfg.CostFn == "keycost", metricsOn: cs.Cfg.Metrics}
+		ignoreInternal: cs.Cfg.IgnoreInternalCost, costFn: cs.Cfg.CostFn == "keycost", metricsOn: cs.Cfg.Metrics, suParity: cs.Cfg.ShouldUpdate == "parity"}
 	return x, nil
 }
 
@@ -226,18 +228,47 @@ func (x *gRun) expectCallbacks(n0 int, want []gCB, where string) {
 // syncBuffer checks that the number of items that entered the write buffer is what the model expects
 // (items dequeued by the applier + items in the channel). The client call has returned, so its send is done.
 func (x *gRun) syncBuffer(what string) bool {
-	deadline := time.Now().Add(3 * time.Second)
+	// The applier may have received an item and not yet reached its hook: that state is transient, so the comparison
+	// is repeated. The bound is a watchdog, not a verdict by itself: it only counts when the process's canary shows
+	// that goroutines were being scheduled on time while it ran (otherwise the episode is inconclusive).
+	t0 := time.Now()
+	deadline := t0.Add(20 * time.Second)
 	for {
 		got := x.g.Taken() + x.l.C.Snapshot().SetBufLen
 		if got == x.m.enq {
 			return true
 		}
 		if time.Now().After(deadline) {
-			x.mismatch("buffer-protocol", fmt.Sprintf("%s: %d items have entered the write buffer, the reference FIFO of pending writes has %d", what, got, x.m.enq))
+			x.timedOut("buffer-protocol", fmt.Sprintf("%s: %d items have entered the write buffer, the reference FIFO of pending writes has %d (unchanged for 20 s)", what, got, x.m.enq))
 			return false
 		}
-		runtime.Gosched()
+		if time.Since(t0) > 50*time.Millisecond {
+			time.Sleep(time.Millisecond)
+		} else {
+			runtime.Gosched()
+		}
 	}
+}
+
+// gatedCanary measures how late a ticker goroutine of this process runs; started on first use.
+var (
+	gatedCanary     *lab.Watchdog
+	gatedCanaryOnce sync.Once
+)
+
+func gatedCanaryLateMs() int64 {
+	gatedCanaryOnce.Do(func() { gatedCanary = lab.NewWatchdog(1, 24*time.Hour, func(string, bool, string) {}) })
+	return gatedCanary.MaxLateMs()
+}
+
+// timedOut reports a mismatch whose only evidence is that something did not happen within a generous wall-clock
+// bound: a violation if the process was demonstrably being scheduled normally, inconclusive otherwise.
+func (x *gRun) timedOut(class, detail string) {
+	if late := gatedCanaryLateMs(); late > 1000 {
+		x.mismatch("harness", fmt.Sprintf("%s - not counted: the canary goroutine of this process ran up to %d ms late (machine overloaded)", detail, late))
+		return
+	}
+	x.mismatch(class, detail)
 }
 
 func (x *gRun) awaitHeldIfNeeded() {
@@ -336,7 +367,7 @@ func (x *gRun) step() {
 		select {
 		case <-it.done:
 		case <-time.After(30 * time.Second):
-			x.mismatch("wait-stuck", "Wait() did not return although its marker was applied")
+			x.timedOut("wait-stuck", "Wait() did not return within 30 s although its marker was applied")
 		}
 		for i, p := range x.pendingWaits {
 			if p.done == it.done {
@@ -379,10 +410,12 @@ func (x *gRun) doSet(k int, cost int64, ttl time.Duration) {
 	case m.closed || ttl < 0:
 		wantOK = false
 	default:
-		if e, has := m.store[k]; has {
+		if e, has := m.store[k]; has && !(m.suParity && lab.ValSeq(v)%2 == 1) {
 			cbs = append(cbs, gCB{lab.EvOnExit, e.val})
 			it.flag = gUpdate
 		}
+		// (a re-write that ShouldUpdate refuses leaves the entry alone and travels as a NEW item: the applier finds the
+		// key tracked, adjusts its cost and turns the value away - or, if the key has left by then, inserts it)
 		if m.chanLen() < m.B {
 			enq = true
 		} else if it.flag == gNew {
@@ -461,7 +494,7 @@ func (x *gRun) doDelBlocked(k int) {
 	select {
 	case <-done:
 	case <-time.After(30 * time.Second):
-		x.mismatch("call-stuck", fmt.Sprintf("Del(k%d) still blocked 30 s after the applier made room in the write buffer", k))
+		x.timedOut("call-stuck", fmt.Sprintf("Del(k%d) still blocked 30 s after the applier made room in the write buffer", k))
 		return
 	}
 	m.fifo = append(m.fifo, gItem{flag: gDelete, key: k})
@@ -523,7 +556,7 @@ func (x *gRun) timed(f func(), what string) bool {
 	case <-done:
 		return true
 	case <-time.After(30 * time.Second):
-		x.mismatch("call-stuck", what+" did not return within 30 s")
+		x.timedOut("call-stuck", what+" did not return within 30 s")
 		return false
 	}
 }
@@ -758,7 +791,7 @@ func (x *gRun) doClearOrClose(closeIt bool) {
 				select {
 				case <-it.done:
 				case <-time.After(30 * time.Second):
-					x.mismatch("wait-stuck", "Wait() did not return although its marker was applied")
+					x.timedOut("wait-stuck", "Wait() did not return within 30 s although its marker was applied")
 					return
 				}
 			}
@@ -787,7 +820,7 @@ func (x *gRun) doClearOrClose(closeIt bool) {
 			select {
 			case <-it.done:
 			case <-time.After(30 * time.Second):
-				x.mismatch("clear-postcondition", "a goroutine blocked in Wait() before "+name+" was not released")
+				x.timedOut("clear-postcondition", "a goroutine blocked in Wait() before "+name+" was not released within 30 s")
 				return
 			}
 		}
@@ -807,7 +840,7 @@ func (x *gRun) doClearOrClose(closeIt bool) {
 	select {
 	case <-done:
 	case <-time.After(30 * time.Second):
-		x.mismatch("call-stuck", name+"() did not return within 30 s")
+		x.timedOut("call-stuck", name+"() did not return within 30 s")
 		return
 	}
 	x.tr("%s() [applied %d before the applier stopped, drained %d, resident %d]", name, appliedBeforeStop, drained, resident)
@@ -859,7 +892,7 @@ func (x *gRun) postClose() {
 		x.mismatch(class, fmt.Sprintf("IterValues yields %d values after Close", n))
 	}
 	// background goroutines of this cache must be gone (episodes run one at a time in this process)
-	deadline := time.Now().Add(10 * time.Second)
+	deadline := time.Now().Add(30 * time.Second)
 	for {
 		buf := make([]byte, 1<<20)
 		n := runtime.Stack(buf, true)
@@ -869,7 +902,7 @@ func (x *gRun) postClose() {
 			break
 		}
 		if time.Now().After(deadline) {
-			x.mismatch("goroutine-leak", fmt.Sprintf("%d processItems goroutine(s) still alive 10 s after Close returned", cnt))
+			x.timedOut("goroutine-leak", fmt.Sprintf("%d processItems goroutine(s) still alive 30 s after Close returned", cnt))
 			break
 		}
 		time.Sleep(2 * time.Millisecond)
@@ -1017,6 +1050,18 @@ func (x *gRun) exec(op gOp) {
 		x.doClearOrClose(false)
 	case "close":
 		x.doClearOrClose(true)
+	case "maxcost":
+		// op.Cost < 0: back to the configured capacity; otherwise a capacity below the cost of any single item, so that
+		// nothing is admitted (and nothing has to be evicted) while it lasts
+		n := op.Cost
+		if n < 0 {
+			n = x.cs.Cfg.MaxCost
+		}
+		if !x.m.closed {
+			x.cl.UpdateMaxCost(n)
+			x.m.maxCost = n
+			x.tr("UpdateMaxCost(%d)", n)
+		}
 	}
 	x.opsDone++
 	if !x.failed {
@@ -1088,7 +1133,12 @@ func genGatedOps(rng *lab.RNG, nk, n int, w map[string]int, costs []int64, ttls 
 		tot += w[k]
 	}
 	var ops []gOp
+	restoreAt := -1
 	for i := 0; i < n; i++ {
+		if i == restoreAt {
+			ops = append(ops, gOp{Op: "maxcost", Cost: -1})
+			restoreAt = -1
+		}
 		r := rng.Intn(tot)
 		name := ""
 		for _, k := range names {
@@ -1107,8 +1157,17 @@ func genGatedOps(rng *lab.RNG, nk, n int, w map[string]int, costs []int64, ttls 
 			op.N = 1 + rng.Intn(3)
 		case "sleep":
 			op.N = 2 + rng.Intn(10)
+		case "mcdip":
+			if restoreAt >= 0 {
+				continue
+			}
+			op = gOp{Op: "maxcost", Cost: 0}
+			restoreAt = i + 1 + rng.Intn(6)
 		}
 		ops = append(ops, op)
+	}
+	if restoreAt >= 0 {
+		ops = append(ops, gOp{Op: "maxcost", Cost: -1})
 	}
 	return ops
 }
